@@ -1,6 +1,6 @@
 (* C05 -- audited obligations.  Models: coq/Grid/{QVec,IntLin,GridSem,GridRef}.v *)
 From Coq Require Import List ZArith QArith Qabs Bool.
-Require Import PPLV.Grid.QVec PPLV.Grid.IntLin PPLV.Grid.GridSem PPLV.Grid.GridRef PPLV.Grid.GridFreq PPLV.Grid.GridOps2 PPLV.Grid.GridOpsSpec PPLV.Grid.GridOpsSpec2.
+Require Import PPLV.Grid.QVec PPLV.Grid.IntLin PPLV.Grid.GridSem PPLV.Grid.GridRef PPLV.Grid.GridFreq PPLV.Grid.GridOps2 PPLV.Grid.GridOpsSpec PPLV.Grid.GridOpsSpec2 PPLV.Grid.GridOpsSpec3.
 Import ListNotations.
 Local Open Scope Q_scope.
 
@@ -132,6 +132,42 @@ Theorem generalized_affine_preimage_lhs_exact : forall n la lb ra rb m G G', len
       (forall i, (i < n)%nat -> nth i la 0%Z = 0%Z -> x' i == x i) /\
       exists z : Z, expr_val la lb x' == expr_val ra rb x + inject_Z z * inject_Z m.
 Proof. exact gen_preimage_lhs_spec. Qed.
+
+(* concatenate_assign, map_space_dimensions (partial injection onto 0..m-1), affine_preimage (on congruences),
+   add_grid_generator per generator kind, the congruence renamings used for concatenate / expand, and the positive
+   answer of relation_with(generator) = subsumes  (coq/Grid/GridOpsSpec3.v) *)
+Theorem concatenate_exact : forall n n2 G1 G2 x, dim_le n G1 ->
+  (in_qgens (n + n2) (concat n G1 G2) x <->
+   in_qgens n G1 x /\ in_qgens n2 G2 (fun i => x (n + i)%nat)).
+Proof. exact concat_spec. Qed.
+Theorem map_space_dimensions_exact : forall n m pf G y,
+  (length pf <= n)%nat -> pf_inj pf ->
+  (forall i j, nth i pf None = Some j -> (j < m)%nat) ->
+  (forall j, (j < m)%nat -> exists i, nth i pf None = Some j) ->
+  (in_qgens m (map_dims pf G) y <->
+   exists x, in_qgens n G x /\ forall i j, nth i pf None = Some j -> y j == x i).
+Proof. exact map_dims_spec. Qed.
+Theorem affine_preimage_exact : forall k a b d C x, d <> 0%Z ->
+  (sat_cgs (affine_preimage k a b d C) x <->
+   sat_cgs C (upd x k ((dotf (map inject_Z a) x + inject_Z b) / inject_Z d))).
+Proof. exact affine_preimage_spec. Qed.
+Theorem add_grid_generator_parameter_exact : forall n G q x,
+  in_qgens n (add_gen G (QParam q)) x <->
+  exists (k : Z) y, in_qgens n G y /\ peq n x (fun i => y i + inject_Z k * vnth q i).
+Proof. exact add_gen_param_spec. Qed.
+Theorem add_grid_generator_line_exact : forall n G l x,
+  in_qgens n (add_gen G (QLine l)) x <->
+  exists (k : Q) y, in_qgens n G y /\ peq n x (fun i => y i + k * vnth l i).
+Proof. exact add_gen_line_spec. Qed.
+Theorem add_grid_generator_point_exact : forall n G p p0 ps x, points G = p0 :: ps ->
+  (in_qgens n (add_gen G (QPoint p)) x <->
+   exists (k : Z) y, in_qgens n G y /\ peq n x (fun i => y i + inject_Z k * (vnth p i - vnth p0 i))).
+Proof. exact add_gen_point_spec. Qed.
+Theorem add_grid_generator_upper : forall n G g x, in_qgens n G x -> in_qgens n (add_gen G g) x.
+Proof. exact add_gen_sound. Qed.
+Theorem subsumes_yes : forall n G g, subsumes n G g = Ans true ->
+  forall x, in_qgens n (add_gen G g) x <-> in_qgens n G x.
+Proof. exact subsumes_sound. Qed.
 
 (* ---------- stated, NOT proved (kept as Props; nothing depends on them) ---------- *)
 (* grid_incl_sound / grid_equiv_sound / grid_dd_check_sound are the proved halves of these: *)
